@@ -28,6 +28,7 @@ RULE = (
     ' Round 7: `reuse` senders re-send the object an earlier wake delivered.'
     ' Round 8: `keys=types` (cover up/down/stop), `listener=persistent`.'
     ' Round 9: `debug_log`; sent Message objects are not kept alive by the harness.'
+    ' Round 13: the gateway reports its unchanged version again among the `pre_lines`; `node_type` of the sleeping nodes (repeater, unlisted).'
     ' Round 12: `wake_counters` (the counter carried by successive wake lines shrinks, repeats or restarts).'
     ' Round 11: a sender may send an internal command (heartbeat request) instead of a set; `listen_line` (the line that arrives during the race is the node asking for a parked key, not its wake).'
     " Round 10: `pre_lines` (pre/post-sleep notifications, other nodes' heartbeats); rule buffered-send-written-directly; a bystander gateway whose node of the same id wakes."
@@ -58,7 +59,9 @@ COLLIDE_REGISTRY = {
 
 # lines that may arrive between the parking and the wake (no wake of node 1, no re-presentation of node 1 among them)
 PRE_LINES = ("1;255;3;0;33;\n", "1;255;3;0;0;55\n", "1;0;1;0;0;7\n", "1;0;2;0;0;\n", "1;255;3;0;11;s\n", "1;255;3;0;18;\n", "1;255;3;0;21;\n", "0;255;3;0;9;log\n", "0;255;3;0;14;ready\n",
-             "1;255;3;0;6;0\n", "1;1;0;0;3;relay\n", "junk\n", "1;255;4;0;0;00\n")
+             "1;255;3;0;6;0\n", "1;1;0;0;3;relay\n", "junk\n", "1;255;4;0;0;00\n",
+             # the gateway reports its (unchanged) version again - as an answer to a version request, or by presenting itself after a restart
+             "0;255;3;0;2;@VERSION@\n", "0;255;0;0;18;@VERSION@\n", "0;255;3;0;2;\n")
 
 # value types that belong together semantically (cover up / down / stop, dimmer, RGB...): every one is a key of its own
 TYPES_NODE1_KEYS = ((1, 0, 29), (1, 0, 30), (1, 0, 31), (1, 1, 29))
@@ -100,6 +103,9 @@ def enumerate_cases(tier: str):
                 yield {"version": version, "parked": 2, "other_parked": 0, "senders": [[0, True], [1, True]], "pre_lines": [line]}
             for senders in ([[0, True]], [[1, True]], [[3, True]]):
                 yield {"version": version, "parked": 2, "other_parked": 0, "senders": senders, "bystander": True}
+            for node_type in (18, 0, 99):
+                for senders in ([[0, True]], [[0, True], [1, True]], [["other", True]]):
+                    yield {"version": version, "parked": 2, "other_parked": 1, "senders": senders, "node_type": node_type}
             # the counter in the wake lines shrinks, repeats or restarts from one wake to the next (a node that rebooted)
             for counters in ([9, 5, 1], [5, 5, 5], [1, 2, 0], [100, 1], [0, 0], [7, -1]):
                 for senders in ([[0, True]], [[0, True], [1, True]]):
@@ -154,6 +160,7 @@ def strategy(tier: str):
             "prior": st.booleans(),
             "listen_line": st.sampled_from(("wake", "wake", "wake", "req0", "req1")),
             "wake_counters": st.sampled_from(([5], [5], [9, 5, 1], [1, 2, 3], [3, 3, 3], [100, 0])),
+            "node_type": st.sampled_from((None, None, None, 17, 18, 0)),
         }
     )
 
@@ -231,6 +238,9 @@ async def _run_schedule(case: dict, schedule: list[int]) -> tuple[Outcome | None
     if case.get("reported"):
         # both children of node 1 have already reported "s0" for both value types: a send of "s0" looks redundant
         registry = {k: dict(v, children={c: dict(cv, values={"0": "s0", "2": "s0", "3": "s0", "23": "s0"}) for c, cv in v["children"].items()}) for k, v in registry.items()}
+    if case.get("node_type") is not None:
+        # the sleeping nodes are repeaters, or carry a type no table lists (restored from a file): sleeping is sleeping
+        registry = {k: dict(v, node_type=int(case["node_type"])) for k, v in registry.items()}
     env.install_registry(gateway.nodes, registry)
     sends: list[dict] = []  # {key, value, inv, comp}
     listen_tick: list = [None]
@@ -279,9 +289,10 @@ async def _run_schedule(case: dict, schedule: list[int]) -> tuple[Outcome | None
         await do_send(OTHER_KEY, "po", True)
     if len(transport.calls) != prior_calls:
         return Outcome(ok=True, classes=("diverged-elsewhere",)), [], {}
+    pre_start = len(transport.calls)
     for line in case.get("pre_lines", ()):
         # what the node (or the gateway) says between the parking and the wake; none of it is a wake of node 1
-        await receive(line)
+        await receive(line.replace("@VERSION@", version + ".0"))
     pre_calls = len(transport.calls)
     bystander = None
     if case.get("bystander"):
@@ -400,6 +411,8 @@ async def _run_schedule(case: dict, schedule: list[int]) -> tuple[Outcome | None
         parts = line.rstrip("\n").split(";", 5)
         if parts[2] != "1":
             continue
+        if pre_start <= call_idx < pre_calls:
+            continue  # (an answer to what the node asked between parking and wake - a stored value echoed back - not a release)
         if transport.call_blocked_index.get(call_idx) in transport.failed_indices:
             continue  # this write attempt failed: nothing reached the wire
         key, value = _key_of(line), parts[5]
